@@ -185,7 +185,107 @@ func c02duplicates(c *core.Ctx) {
 	}
 }
 
+// c02deep: one very deep tree per run - the sparsest AVL shape of height 26 (317 810
+// values, built in level order without a single rotation), then insertions below its
+// deepest leaves and deletions on its shallow side, which retrace (and rebalance along)
+// search paths of more than 24 nodes; balance is re-derived from the traversals after
+// every batch.
+func c02deep(c *core.Ctx) {
+	r := c.R
+	h := 26
+	if c.Tier == "thorough" {
+		h = r.Range(25, 27)
+	}
+	tr := avl.New(cmpInt)
+	t := &tr
+	n := 0
+	fail := func(sig, msg string) {
+		c.Violate(sig+"[deep]", fmt.Sprintf("%s [sparsest AVL tree of height %d built in level order, then batches of Add/Remove; n=%d]", msg, h, n), nil)
+	}
+	check := func(op string) bool {
+		pre, in := t.SlicePreOrder(), t.SliceInOrder()
+		if len(in) != n {
+			fail(op+":size", fmt.Sprintf("tree has %d elements, %d expected", len(in), n))
+			return false
+		}
+		si := avlShape(pre, in)
+		c.Count("shapes_checked", 1)
+		if si.err != "" {
+			fail(op+":not-a-tree", si.err)
+			return false
+		}
+		if si.unbalanced {
+			fail(op+":unbalanced", fmt.Sprintf("after %s node %d has left height %d and right height %d (tree height %d)", op, si.badNode, si.hl, si.hr, si.height))
+			return false
+		}
+		if si.height > depthBound(n) {
+			fail(op+":too-deep", fmt.Sprintf("after %s height %d exceeds 1.4405*log2(n+2)=%d", op, si.height, depthBound(n)))
+			return false
+		}
+		c.Max("max_height_checked", int64(si.height))
+		c.Max("max_n", int64(n))
+		return true
+	}
+	// keys are spaced by 4 so that new values fit between any two
+	for _, v := range fibLevelOrder(h) {
+		t.Add(4 * v)
+		n++
+	}
+	if !check("Add") {
+		return
+	}
+	lo, hi := -4, 4*n+4
+	present := map[int]bool{}
+	for batch := 0; batch < 8; batch++ {
+		switch batch % 4 {
+		case 0: // below the deepest leaves (the smallest keys sit deepest in this shape)
+			for i := 0; i < 3; i++ {
+				t.Add(lo)
+				lo -= 4
+				n++
+			}
+		case 1: // between existing keys near the deep end
+			for i := 0; i < 3; i++ {
+				v := 4*r.Intn(200) + 1 + r.Intn(3)
+				if !present[v] {
+					present[v] = true
+					t.Add(v)
+					n++
+				}
+			}
+		case 2: // deletions on the shallow side: the long paths must be rebalanced on the way up
+			for i := 0; i < 40; i++ {
+				hi -= 4
+				if t.Remove(hi - 4) {
+					n--
+				}
+			}
+		case 3: // anywhere
+			for i := 0; i < 5; i++ {
+				v := 4*r.Intn(n) + 2
+				if !present[v] {
+					present[v] = true
+					t.Add(v)
+					n++
+				}
+			}
+		}
+		if !check([]string{"Add", "Add", "Remove", "Add"}[batch%4]) {
+			return
+		}
+	}
+	c.Count("deep_trees_checked", 1)
+	c.NonTrivial(core.Mix(c.Seed, uint64(h), 2))
+	if c.WantSample() {
+		c.Sample(map[string]any{"family": "deep", "height": h, "values": n})
+	}
+}
+
 func runC02(c *core.Ctx) {
+	if c.Index == 77 || (c.Tier == "thorough" && c.Index%4000 == 77) {
+		c02deep(c)
+		return
+	}
 	if c.Index%8 == 5 {
 		c02duplicates(c)
 		return
@@ -205,6 +305,8 @@ func runC02(c *core.Ctx) {
 	switch {
 	case c.Tier == "thorough" && c.Index%200 == 7:
 		maxN = 20000
+	case c.Index%50 == 13:
+		maxN = 5000 // quick tier too: sizes beyond 1024, 2048, 4096
 	case c.Index%10 == 3:
 		maxN = 1023
 	case c.Index%3 == 0:
@@ -214,6 +316,8 @@ func runC02(c *core.Ctx) {
 	checkEvery := 1
 	if n0 > 4096 {
 		checkEvery = 64
+	} else if n0 > 1100 {
+		checkEvery = 8
 	}
 	family := r.Intn(9)
 	fam := []string{"ascending", "descending", "zigzag", "random", "fibonacci-then-delete", "delete-root", "delete-min", "delete-max", "interleaved"}[family]
